@@ -10,11 +10,27 @@ FUNCS = ["emboss::prelude::{UInt,Int,Bcd,Flag,Float}View::{CouldWriteValue,TryTo
 def main(args):
     def keep(n):
         return not viewcheck.SAFETY.search(n)
-    from contracts import cpp_views
+    from contracts import cpp_views, write_inference
+    from vlib import pool, core
+    if args.replay:
+        import json
+        d = json.load(open(args.replay))
+        if d["obligation"].startswith("_invert_expression"):
+            print(json.dumps(write_inference.replay(d["obligation"], d.get("model")), indent=1, default=str))
+            return 0
     r = viewcheck.run("C03", args, ["UInt", "Int", "Bcd", "Flag", "Float", "Enum"], ["write"], keep=keep, functions=FUNCS,
                       more_jobs=cpp_views.bcdwide_jobs())
     if isinstance(r, int):
         return r
+    # E1: write_inference._invert_expression (alias / add-subtract virtual fields store the value that reads back v)
+    n0 = len(r.obligations)
+    pool.run_targets(r, "contracts.write_inference", list(write_inference.TARGETS))
+    for ob in r.obligations[n0:]:
+        if ob.verdict == core.REFUTED:
+            ob.replay = write_inference.replay(ob.name, ob.model)
+    r.function("compiler.front_end.write_inference._invert_expression", "pyvc: loop-invariant step lemma on the real loop body + whole function to depth 3")
+    r.assume(*core.STANDING_ASSUMPTIONS["E1"])
+    r.assume("_invert_expression: the unbounded statement is the induction over the path using the proved step lemma (paper step); ir_data constructors are modelled as record construction")
     r.extra["not_covered"] = ["BcdView stored-bits/read-back for field widths above %d bits (decimal recomposition is bit-blasting-hard; clauses not generated, not claimed)" % cpp_views.BCD_DIRECT_MAX_W,
                               "BcdView candidates outside range(ValueType) (known finding KF-C03-1: the non-template signature narrows before looking)",
                               "alias / transform virtual-field writes: corpus checks"]
